@@ -54,7 +54,7 @@ def _run(cmd, cwd=None, timeout=1800, env=None):
         return 124, (e.stdout or b"").decode() if isinstance(e.stdout, bytes) else (e.stdout or ""), "TIMEOUT"
 
 
-def coq_build(pid=None):
+def coq_build(pid=None, extra=()):
     """Full .vo build (incremental) of everything the property depends on
     (Properties/<pid>.v and Exec/Run<pid>.v with their dependency closure);
     setup_cmd builds the whole development. Returns (ok, log)."""
@@ -66,6 +66,7 @@ def coq_build(pid=None):
             for t in (f"theories/Properties/{pid}.vo", f"theories/Exec/Run{pid}.vo"):
                 if os.path.exists(os.path.join(COQ, t[:-1])):
                     targets.append(t)
+            targets.extend(extra)
         rc, out, err = _run(["bash", os.path.join(COQ, "build.sh"), *targets], cwd=COQ, timeout=3000)
         return rc == 0, out + err
 
@@ -443,7 +444,7 @@ def main(prop, argv=None):
     known = load_known(pid)
 
     # 1. the development builds, no forbidden construct, property file re-checked
-    ok, log = coq_build(pid)
+    ok, log = coq_build(pid, getattr(prop, 'COQ_TARGETS', ()))
     forb = scan_forbidden()
     if not ok:
         violations.append(("Coq development does not build", {"kind": "proof-broken", "theorem": "make", "log": log[-3000:]}, True))
